@@ -383,6 +383,14 @@ def c05(pid, tier, seed):
     states += dist
     trans += g
     design = {"model": "Limiter (I=4000, B=3, depth 14)", "distinct_states": dist, "invariants": ["WindowI", "FreshI", "CapOK"]}
+    # unbounded time, real burst: Apalache discharges the inductive invariant of LimiterInd.tla (same Request as Limiter.tla, I=4000, B=20, any gaps)
+    wda = vlib.workdir("%s_apalache" % pid)
+    steps = [("Init", "IndInv", 0), ("IndInit", "IndInv", 1), ("IndInit", "WindowI", 0)]
+    oks = [vlib.run_apalache("LimiterInd", i, v, n, wda) for (i, v, n) in steps]
+    if not all(oks):
+        raise vlib.ToolError("Apalache could not discharge the inductive window invariant of LimiterInd.tla: %s" % list(zip(steps, oks)))
+    design["apalache_inductive"] = {"spec": "LimiterInd.tla", "obligations": ["Init => IndInv", "IndInv /\\ Next => IndInv'", "IndInv => WindowI"], "discharged": 3,
+                                    "scope": "I=4000, B=20, arbitrary gaps, unbounded time"}
 
     def lift(seq, extra):
         """B=3 behaviour -> analogue for a larger burst: every bucket-draining run of zero gaps gets `extra` more requests"""
